@@ -175,7 +175,7 @@ pub fn run(ctx: &Ctx, st: &mut Stats) {
         }
     });
     // 3b. grammar-generated pictures (up to 60 tokens) and leniently spelled texts damaged at byte level
-    let n = ctx.tier.pick(60, 300_000, 6_000_000);
+    let n = ctx.tier.pick(60, 300_000, ctx.big(6_000_000, 40_000_000));
     ctx.par(st, "generated pictures + spelled texts with byte-level damage", false, 0, n, |st, _, rng| {
         let ty = *rng.pick(&ALL_TY);
         let lossless = rng.chance(1, 2);
@@ -239,7 +239,7 @@ pub fn run(ctx: &Ctx, st: &mut Stats) {
         st.eval_h(mix(h, 1), &H { pic: &pic, text: None }, check);
     });
     // 3c. random strings (valid UTF-8, up to 2000 characters) as picture and as input
-    let n = ctx.tier.pick(40, 100_000, 2_000_000);
+    let n = ctx.tier.pick(40, 100_000, ctx.big(2_000_000, 10_000_000));
     ctx.par(st, "random UTF-8 strings as picture and as input", false, 0, n, |st, _, rng| {
         let len = if rng.chance(1, 40) { rng.below(2000) as usize } else { rng.below(30) as usize };
         let mut p = String::new();
